@@ -313,6 +313,7 @@ func main() {
 	r := vx.Start("C08")
 	genrun.MaybeServe()
 	r.PerKindSmallest = true
+	installDefaultFlavours()
 	schemas := enumerate(r.Thorough())
 	if r.Replay != "" {
 		_, witness, _ := r.ReplayFile()
